@@ -6,7 +6,10 @@ use super::{
 use crate::util::linear_scan::Region;
 use crate::{policy::space::Space, Plan};
 use crate::{util::constants::LOG_BYTES_IN_PAGE, vm::*};
+#[cfg(not(mmtk_verif))]
 use spin::Mutex;
+#[cfg(mmtk_verif)]
+use crate::util::verif::sync::spin_shim::Mutex;
 use std::sync::atomic::{AtomicBool, AtomicUsize, Ordering};
 
 pub type Histogram = [usize; Defrag::NUM_BINS];
